@@ -53,6 +53,11 @@ def setup(cfg, root):
     # the layout <dir>/bin/<phase> with a valid <dir>/buildpack.toml: still no substitute for CNB_BUILDPACK_DIR
     with open(os.path.join(root, "buildpack.toml"), "w") as f:
         f.write(DESC["ok"])
+    if cfg.get("prime"):
+        # another buildpack's directory, used by an earlier detect call in the same process (VERIF_BP_PRIME)
+        os.makedirs(os.path.join(root, "decoybp"))
+        with open(os.path.join(root, "decoybp", "buildpack.toml"), "w") as f:
+            f.write(DESC["ok"].replace("verif/test", "verif/decoy"))
     envd = os.path.join(root, "platform", "env")
     if cfg["plat"] != "env_missing":
         os.makedirs(envd)
@@ -170,6 +175,8 @@ def run_one(cfg, root):
         if cfg["vars"][k]:
             val = vals.get(k, {"os": "linux", "arch": "amd64", "variant": "v8", "dname": "ubuntu", "dver": "24.04"}[k])
             env[var] = bytes(val) if isinstance(val, list) else val
+    if cfg.get("prime"):
+        env["VERIF_BP_PRIME"] = os.path.join(root, "decoybp")
     env.update(cfg.get("extra_env", {}))
     if "LLVM_PROFILE_FILE" in os.environ:      # coverage measurement only (tools/coverage.sh)
         env["LLVM_PROFILE_FILE"] = os.environ["LLVM_PROFILE_FILE"]
